@@ -139,7 +139,7 @@ pub fn def() -> PropDef {
                 name: "witness",
                 rule: "n<=7",
                 strategy,
-                cases: (12_000, 600_000),
+                cases: (100_000, 1_000_000),
                 exhaustive: Some(enumerate),
                 exhaustive_note: "all functions of n<=3 (quick) / n<=4 (thorough) x {P,N,NPN} x {Lut,LutN}, plus the returned representative of each as a second argument",
                 run,
@@ -148,7 +148,7 @@ pub fn def() -> PropDef {
                 name: "witness-large",
                 rule: "n=8",
                 strategy: strategy_large,
-                cases: (12, 600),
+                cases: (64, 1_000),
                 exhaustive: None,
                 exhaustive_note: "",
                 run,
